@@ -399,7 +399,62 @@ func TestC08(t *testing.T) {
 				mode = 7
 			}
 		}
+		if mode == 9 && rapid.IntRange(0, 3).Draw(rt, "stressShare") == 0 {
+			mode = 10
+		}
 		switch mode {
+		case 10:
+			// Small inputs that are expensive for a naive algorithm: deeply
+			// nested code around a site; a pattern with many elisions on a long
+			// list of candidates. The run must still finish (hang oracle).
+			cs.Mode = "stress"
+			if rapid.Bool().Draw(rt, "stressKind") {
+				n := rapid.IntRange(8, 26).Draw(rt, "depth")
+				open := rapid.SampledFrom([]string{"if true {", "for {", "{", "switch {\ndefault:", "func() {"}).Draw(rt, "nest")
+				cl := map[string]string{"func() {": "}()"}[open]
+				if cl == "" {
+					cl = "}"
+				}
+				var b strings.Builder
+				b.WriteString("package a\n\nfunc h() {\n")
+				for i := 0; i < n; i++ {
+					b.WriteString(open + "\n")
+				}
+				b.WriteString("foo()\n")
+				for i := 0; i < n; i++ {
+					b.WriteString(cl + "\n")
+				}
+				b.WriteString("}\n")
+				cs.Target = b.String()
+				cs.Patch = []byte(rapid.SampledFrom([]string{"@@\n@@\n-foo()\n+bar()\n", "@@\n@@\n-foo()\n+bar()\n+baz()\n", "@@\n@@\n foo()\n+baz()\n", "@@\nvar x identifier\n@@\n-x()\n+x(1)\n"}).Draw(rt, "stressPatch"))
+			} else {
+				k := rapid.IntRange(3, 11).Draw(rt, "dots")
+				n := rapid.IntRange(10, 40).Draw(rt, "listLen")
+				elem := rapid.SampledFrom([]string{"a", "a", "x", "1"}).Draw(rt, "elem")
+				last := rapid.SampledFrom([]string{"b", "a", "x"}).Draw(rt, "last")
+				pat := "f(" + strings.Repeat("..., "+elem+", ", k) + "..., " + last + ")"
+				meta := ""
+				if elem == "x" || last == "x" {
+					meta = "var x expression\n"
+				}
+				cs.Patch = []byte("@@\n" + meta + "@@\n-" + pat + "\n+g()\n")
+				args := make([]string, n)
+				for i := range args {
+					args[i] = rapid.SampledFrom([]string{"a", "a", "a", "a", "b", "1"}).Draw(rt, fmt.Sprintf("arg%d", i))
+				}
+				kind := rapid.IntRange(0, 2).Draw(rt, "listKind")
+				switch kind {
+				case 0:
+					cs.Target = "package a\n\nfunc h() {\n\tf(" + strings.Join(args, ", ") + ")\n}\n"
+				case 1:
+					// the same as statements
+					cs.Patch = []byte("@@\n" + meta + "@@\n-{\n" + strings.Repeat("-...\n-"+elem+"()\n", k) + "-...\n-" + last + "()\n-}\n+g()\n")
+					cs.Target = "package a\n\nfunc h() {\n\t{\n\t\t" + strings.Join(args, "()\n\t\t") + "()\n\t}\n}\n"
+				default:
+					cs.Patch = []byte("@@\n" + meta + "@@\n-[]int{" + strings.Repeat("..., "+elem+", ", k) + "..., " + last + "}\n+nil\n")
+					cs.Target = "package a\n\nvar v = []int{" + strings.Join(args, ", ") + "}\n"
+				}
+			}
 		case 0:
 			cs.Mode = "bytes"
 			cs.Patch = rapid.SliceOfN(rapid.Byte(), 0, 200).Draw(rt, "bytes")
